@@ -67,3 +67,46 @@ Theorem C13_first_string :
     (In Eps (first g' str) <-> DerivesL g str []).
 Proof. exact C13_first_string_uncond. Qed.
 Print Assumptions C13_first_string.
+
+(* ===== the generated parser ======================================================================= *)
+(* The statements first drafted (LRStatements.C13_sound_stmt, C13_driver_safe_stmt, C13_generate_total_stmt)
+   are false for grammars whose right-hand sides mention a non-terminal that was never created (it collides
+   with the S' / E symbols the generator adds) or that contain the end marker themselves; refuted below.
+   With the two side conditions — which hold for every grammar built through createNonTerminal/add and for the
+   macro detector — they are proved, for any conflict list. *)
+From Theo Require Import SpecLR Proofs_LRSound0 Proofs_LRSound.
+
+Theorem C13_sound :
+  forall (T V : Type) (translator : T -> N) (creator : T -> V) (semantic : sym -> N -> list V -> V)
+         max_states g prefix S eof g' tab confs states fuel input v,
+    wf_grammar g -> start_ok g S eof -> rhs_closed g ->
+    generate_tables max_states g prefix S eof = Ok (g', tab, confs, states) ->
+    parse translator creator semantic tab fuel input = Ok (Some v) ->
+    exists (tr : tree) rest,
+      valid translator g tr /\ root translator tr = S /\
+      input = yield tr ++ rest /\ v = value creator semantic tr /\
+      (prefix = false -> exists tok rest', rest = tok :: rest' /\ Tm (translator tok) = eof).
+Proof. exact C13_sound_partial. Qed.
+Print Assumptions C13_sound.
+
+Theorem C13_driver_safe :
+  forall (T V : Type) (translator : T -> N) (creator : T -> V) (semantic : sym -> N -> list V -> V)
+         max_states g prefix S eof g' tab confs states input,
+    wf_grammar g -> start_ok g S eof -> rhs_closed g -> eof_fresh g eof ->
+    generate_tables max_states g prefix S eof = Ok (g', tab, confs, states) ->
+    (exists pre tok post, input = pre ++ tok :: post /\ Tm (translator tok) = eof) ->
+    forall fuel, parse translator creator semantic tab fuel input = Fuel \/
+                 exists r, parse translator creator semantic tab fuel input = Ok r.
+Proof. exact C13_driver_safe_partial. Qed.
+Print Assumptions C13_driver_safe.
+
+Theorem C13_generate_total :
+  forall max_states g prefix S eof, wf_grammar g -> start_ok g S eof -> rhs_closed g ->
+    generate_tables max_states g prefix S eof = Fuel \/
+    exists r, generate_tables max_states g prefix S eof = Ok r.
+Proof. exact C13_generate_total_partial. Qed.
+Print Assumptions C13_generate_total.
+
+Theorem C13_sound_without_side_conditions_refuted : ~ C13_sound_stmt.
+Proof. exact C13_sound_stmt_false. Qed.
+Print Assumptions C13_sound_without_side_conditions_refuted.
